@@ -10,6 +10,7 @@ import (
 	"sync"
 	"sync/atomic"
 
+	"github.com/AdguardTeam/urlfilter"
 	"github.com/AdguardTeam/urlfilter/rules"
 
 	"verif/automata"
@@ -206,6 +207,26 @@ func init() {
 			items = append(items, item{p + "$domain=example.org", "mask"})
 			items = append(items, item{p + "$domain=example.org,match-case", "mask"})
 		})
+		// mask patterns over multi-character literals (pieces long enough to become shortcuts)
+		maskToks := []string{"||", "|", "*", "^", "ab", "Cd", "z1", "/", "."}
+		for l := 1; l <= 4; l++ {
+			enum.Sequences(len(maskToks), l, func(s []int) bool {
+				var sb strings.Builder
+				for i, t := range s {
+					if t == 0 && i > 0 {
+						return true
+					}
+					sb.WriteString(maskToks[t])
+				}
+				p := sb.String()
+				if len(p) > 1 && p[0] == '/' && p[len(p)-1] == '/' {
+					return true
+				}
+				items = append(items, item{p + "$domain=example.org", "mask-multichar"})
+				items = append(items, item{p + "$domain=example.org,match-case", "mask-multichar"})
+				return true
+			})
+		}
 		c05RegexRules(nRegex, func(t string) { items = append(items, item{t, "regex-grammar"}) })
 		bundled, files := c05BundledRegexRules()
 		for _, t := range bundled {
@@ -231,6 +252,47 @@ func init() {
 				c.Run.Sample(map[string]any{"rule": it.text, "class": it.class})
 			}
 		})
+		// index layer: the shortcut is also the key of the shortcut index.  Every ordered
+		// list of <=3 rules whose patterns spell out or omit the scheme, through
+		// NetworkEngine.MatchAll for URL and hostname requests, against rule.Match.
+		idxRules := []string{"http://example.org^", "https://example.org^", "://example.org^", "ws://example.org^", "example.org^", "||example.org^", "|http://example.org/", "http://sub.example.org^", "p://example.org^"}
+		var idxReqs []*rules.Request
+		for _, u := range []string{"http://example.org/", "https://example.org/a", "ws://example.org", "http://sub.example.org/?u=http://example.org/", "http://x.test/?r=https://example.org^"} {
+			idxReqs = append(idxReqs, rules.NewRequest(u, "", rules.TypeScript))
+		}
+		for _, h := range []string{"example.org", "sub.example.org", "a.sub.example.org"} {
+			idxReqs = append(idxReqs, rules.NewRequestForHostname(h))
+		}
+		var idxLists [][]int
+		for size := 1; size <= 3; size++ {
+			enum.Sequences(len(idxRules), size, func(s []int) bool {
+				idxLists = append(idxLists, append([]int{}, s...))
+				return true
+			})
+		}
+		var idxEvals atomic.Int64
+		c.parallel(len(idxLists), func(li int) {
+			var lines []string
+			for _, i := range idxLists[li] {
+				lines = append(lines, idxRules[i])
+			}
+			ne := urlfilter.NewNetworkEngine(stringStorage(joinLines(lines) + "\n"))
+			for _, q := range idxReqs {
+				idxEvals.Add(1)
+				var want []string
+				for _, l := range lines {
+					if mustNetRule(l, 0).Match(q) {
+						want = append(want, l)
+					}
+				}
+				got := sortedSet(netTexts(ne.MatchAll(q)))
+				if !eqStrings(got, sortedSet(want)) {
+					c.Run.Violate(ev.Violation{Pred: "shortcut-index-finds-what-matches", Sig: map[string]any{"lines": lines, "url": q.URL, "hostname_request": q.IsHostnameRequest},
+						What: fmt.Sprintf("engine over %v, request %s (hostname request: %v): MatchAll returns %v, the rules that match are %v", lines, q.URL, q.IsHostnameRequest, got, sortedSet(want)), Replay: map[string]any{"rule": lines[0], "class": "index"}})
+				}
+			}
+		})
+		c.Run.Set("index_layer_evaluations", idxEvals.Load())
 		c.Run.Set("rules_per_class", perClass)
 		c.Run.Set("bundled_files", files)
 		c.Run.Set("rules_parsed", cnt.rules.Load())
